@@ -102,4 +102,64 @@ def modelObsX (c : CaseX) : Json :=
   let ops : List (Option OpX) := none :: c.ops.map some
   Json.arr ((states.zip ops).map fun so => obsX c.graph so.1 so.2).toArray
 
+
+/-! ### Job vacation
+
+A poll finds the message `vacated/<SIGNAL>` in the job status file of the CURRENT job of a pooled proxy (the
+batch system pre-empted the running job and will start it again).  Anchor: the vacation branch of
+`TaskEventsManager.process_message` (flag POLLED): ignored while a retry is lined up; otherwise the status goes
+back to `submitted` (queued flag cleared if the status changed), the SUBMISSION try counter is reset, the
+execution try counter is left alone.  The operations of `SchedPF` and their theorems are unchanged; vacation is a
+further operation of the correspondence only (not covered by the theorems). -/
+
+def vacate (g : Graph) (s : State) (p : Int) (n : String) (sn : Nat) : State :=
+  let _ := g
+  match s.get? p n with
+  | none => s
+  | some x =>
+    if x.submitNum != sn || sn == 0 then s                       -- the poll output is matched to the current job
+    else if x.status == .waiting && x.submitNum > 0 && (x.subTry > 0 || x.execTry > 0) then s
+    else
+      let y := x.reset (status := some .submitted)
+      let y := if x.status != .submitted then y.reset (queued := some false) else y
+      s.put { y with subTry := 0 }
+
+inductive OpV where
+  | x (op : OpX)
+  | vacate (p : Int) (n : String) (sn : Nat)
+
+def stepV (g : Graph) (s : State) : OpV → State
+  | .x op => stepX g s op
+  | .vacate p n sn => vacate g (clearOp s) p n sn
+
+def traceV (g : Graph) : State → List OpV → List State
+  | s, [] => [s]
+  | s, op :: ops => s :: traceV g (stepV g s op) ops
+
+def runV (g : Graph) (ops : List OpV) : List State := traceV g (init g) ops
+
+def parseOpV (j : Json) : Except String OpV := do
+  match jStrField? j "op" with
+  | some "pollres" =>
+    let st ← req (jStrField? j "state") "pollres state"
+    if st.startsWith "vacated/" then
+      let (p, n) ← parseTaskId (← req (jStrField? j "task") "task")
+      return .vacate p n (← req (jNatField? j "sn") "sn")
+    else .error s!"unsupported poll result {st}"
+  | _ => return .x (← parseOpX j)
+
+structure CaseV where
+  graph : Graph
+  ops : List OpV
+
+def parseCaseV (i : Json) : Except String CaseV := do
+  let g ← parseGraph (← req (jField? i "graph") "graph")
+  let ops ← ((jArrField? i "ops").getD []).mapM parseOpV
+  return { graph := g, ops }
+
+def modelObsV (c : CaseV) : Json :=
+  let states := runV c.graph c.ops
+  let ops : List (Option OpX) := none :: c.ops.map fun o => match o with | .x op => some op | _ => none
+  Json.arr ((states.zip ops).map fun so => obsX c.graph so.1 so.2).toArray
+
 end CylcModel.Sched
